@@ -247,7 +247,28 @@ def family_replay(chk, wvbin, wd, pid, plan):
     return tot
 
 
+def perft_trees(chk, pid, wvbin, wd, quick):
+    """The implementation's perft walk, node by node: children = Legal, counts add up, leaf counts = |Legal|."""
+    from concurrent.futures import ThreadPoolExecutor
+    nf = len([l for l in open(CORPUS_FEN) if l.strip() and not l.startswith("#")])
+    jobs = [(i, os.path.join(wd, "perft_%02d.ndjson" % i)) for i in range(0, nf if not quick else min(nf, 14))]
+
+    def gen(j):
+        i, path = j
+        o = wv(wvbin, ["perft", "--corpus", CORPUS_FEN, "--lo", i, "--hi", i + 1, "--depth", 3, "--out", path])
+        return json.loads(o.strip().splitlines()[-1])
+    with ThreadPoolExecutor(max_workers=NPROC) as ex:
+        summ = list(ex.map(gen, jobs))
+    res = tlc_many([dict(module="ChessTrace", trace=j[1], xmx="4g", timeout=3000) for j in jobs if os.path.getsize(j[1]) > 0])
+    chk.add_tlc(res)
+    fold_diags(chk, res, pid)
+    chk.coverage["perft"] = {"root_positions": len(jobs), "depth": 3, "inner_nodes": sum(s["inner_nodes"] for s in summ), "leaves": sum(s["leaves"] for s in summ)}
+    chk.coverage["traces_validated_against_impl"] = chk.coverage.get("traces_validated_against_impl", 0) + len(jobs)
+
+
 def extra_rules(chk, pid, wvbin, wd, quick):
+    if pid == "C01":
+        perft_trees(chk, pid, wvbin, wd, quick)
     tot = family_replay(chk, wvbin, wd, pid, family_plan(pid, quick, chk.seed))
     chk.coverage["evaluations"] = chk.coverage.get("evaluations", 0) + tot.get("positions", 0)
     chk.coverage["distinct_nontrivial"] = chk.coverage.get("distinct_nontrivial", 0) + tot.get("checks", 0)
